@@ -112,6 +112,14 @@ func runFaultStream(seed int64, n int, out, backendSpec, tier string) *RunReport
 			base := bakeIds(baseOps)
 			baseTerm := opsTerm(base)
 			targets := h.faultTargets(24)
+			// bulk writes and ForEach through an in-memory sort (the sort node forwards documents in Finish)
+			if c, ok := h.pickExisting(); ok {
+				sorted := QSpec{Coll: c, Steps: []QStep{{Kind: "sort", Opts: []SortOpt{{"s", 1}, {"_id", -1}}}}}
+				targets = append(targets, &Op{Kind: "UpdateFunc", Q: sorted, U: Updater{Kind: "funincr", Field: "b"}})
+				targets = append(targets, &Op{Kind: "Delete", Q: QSpec{Coll: c, Steps: []QStep{{Kind: "sort", Opts: []SortOpt{{"b", -1}}}, {Kind: "skip", N: 1}}}})
+				targets = append(targets, &Op{Kind: "Update", Q: sorted, KVs: map[string]interface{}{"x": int64(9)}})
+				targets = append(targets, &Op{Kind: "ForEach", Q: sorted, Stop: 1, Mode: 1})
+			}
 			// the multi-transaction composites, always (known finding K-composite)
 			if c, ok := h.pickExisting(); ok {
 				targets = append(targets, &Op{Kind: "CreateByQuery", Coll: "zq-new", Q: QSpec{Coll: c}})
